@@ -533,6 +533,191 @@ impl<'a> Gen<'a> {
                "mods": order.iter().map(|&k| json!({"name": modname(k), "src": mods[k]})).collect::<Vec<_>>()})
     }
 
+
+    /// LINE-level mutations of corpus files: swap two adjacent lines, delete / duplicate a line, move a
+    /// line up or down by 1..3 (statements such as `loop;`, `}` and labels sit on lines of their own, so
+    /// this moves whole statements into places token mutations do not reach)
+    pub fn line_mutant(&self, i: usize) -> Value {
+        let mut r = Rng::new(self.seed, 0x6000_0000 + i as u64);
+        let (rel, text) = self.pick_file(&mut r);
+        let mut lines: Vec<&str> = text.split_inclusive('\n').collect();
+        if lines.len() < 3 {
+            let mut c = single(format!("lmut{i}"), "lmut:none", rel, text.clone());
+            c["origin"] = json!(rel);
+            return c;
+        }
+        let k = r.below(lines.len());
+        let kind = match r.below(5) {
+            0 => {
+                let j = if k + 1 < lines.len() { k + 1 } else { k - 1 };
+                lines.swap(k, j);
+                "lmut:swap"
+            }
+            1 => {
+                lines.remove(k);
+                "lmut:del"
+            }
+            2 => {
+                let l = lines[k];
+                lines.insert(k, l);
+                "lmut:dup"
+            }
+            3 => {
+                let d = r.range(1, 3);
+                let l = lines.remove(k);
+                let to = k.saturating_sub(d);
+                lines.insert(to, l);
+                "lmut:up"
+            }
+            _ => {
+                let d = r.range(1, 3);
+                let l = lines.remove(k);
+                let to = (k + d).min(lines.len());
+                lines.insert(to, l);
+                "lmut:down"
+            }
+        };
+        let src: String = lines.concat();
+        let mut c = single(format!("lmut{i}"), kind, rel, clip(src));
+        c["origin"] = json!(rel);
+        c
+    }
+
+    /// Valid programs around structures and words: members of different widths, nested structures,
+    /// arrays of structures; every literal lists its members in a RANDOM order, with constant and
+    /// non-constant values; used as local variables, constants, arguments and return values; alone,
+    /// imported from another module, and for the wasm target.
+    pub fn structs(&self, i: usize) -> Value {
+        let mut r = Rng::new(self.seed, 0x7000_0000 + i as u64);
+        // (type, constant literal, name of a local variable of that type)
+        let prims: [(&str, &str, &str); 9] = [
+            ("i8", "-3", "v_i8"), ("u8", "200", "v_u8"), ("i16", "-300", "v_i16"), ("u16", "60000", "v_u16"),
+            ("i32", "70000", "v_i32"), ("u32", "4000000000", "v_u32"), ("i64", "-5000000000", "v_i64"),
+            ("u64", "9000000000", "v_u64"), ("bool", "true", "v_bool"),
+        ];
+        let public = |lib: bool| if lib { "pub " } else { "" };
+        let two_modules = r.chance(35);
+        let wasm = r.chance(15);
+        // ---- declarations
+        // a word: members must fill the declared size exactly
+        let words: [(&str, &[usize]); 6] = [
+            ("word16", &[1, 0]), ("word32", &[3, 1, 0]), ("word32", &[2, 3]), ("word64", &[4, 3, 1, 0]),
+            ("word64", &[5, 4]), ("word128", &[6, 4, 2, 1, 0]),
+        ];
+        let (wkw, wmembers) = words[r.below(words.len())];
+        // a struct with 2..5 members of different types
+        let mut idx: Vec<usize> = (0..prims.len()).collect();
+        for a in (1..idx.len()).rev() {
+            let b = r.below(a + 1);
+            idx.swap(a, b);
+        }
+        let n_members = r.range(2, 5);
+        let smembers: Vec<usize> = idx[..n_members].to_vec();
+        let mut decls = String::new();
+        decls.push_str(&format!("{}{wkw} Wd\n{{\n", public(two_modules)));
+        for (k, m) in wmembers.iter().enumerate() {
+            decls.push_str(&format!("\tw{k}: {},\n", prims[*m].0));
+        }
+        decls.push_str("}\n\n");
+        decls.push_str(&format!("{}struct Packet\n{{\n", public(two_modules)));
+        for (k, m) in smembers.iter().enumerate() {
+            decls.push_str(&format!("\tm{k}: {},\n", prims[*m].0));
+        }
+        decls.push_str("}\n\n");
+        decls.push_str(&format!(
+            "{}struct Outer\n{{\n\ttag: u8,\n\tinner: Packet,\n\tword: Wd,\n\tbig: i64,\n\tpair: [2]Packet,\n}}\n\n",
+            public(two_modules)
+        ));
+        // ---- literals with members in random order
+        fn shuffled(r: &mut Rng, n: usize) -> Vec<usize> {
+            let mut v: Vec<usize> = (0..n).collect();
+            for a in (1..n).rev() {
+                let b = r.below(a + 1);
+                v.swap(a, b);
+            }
+            v
+        }
+        let lit = |r: &mut Rng, name: &str, prefix: &str, members: &[usize], constant: bool| -> String {
+            let order = shuffled(r, members.len());
+            let fields: Vec<String> = order
+                .iter()
+                .map(|&k| {
+                    let (_, c, v) = prims[members[k]];
+                    let use_const = constant || r.chance(50);
+                    format!("{prefix}{k}: {}", if use_const { c } else { v })
+                })
+                .collect();
+            format!("{name} {{ {} }}", fields.join(", "))
+        };
+        let outer = |r: &mut Rng, constant: bool| -> String {
+            let mut fields = vec![
+                format!("tag: {}", if constant || r.chance(50) { "7" } else { "v_u8" }),
+                format!("inner: {}", lit(r, "Packet", "m", &smembers, constant)),
+                format!("word: {}", lit(r, "Wd", "w", wmembers, constant)),
+                format!("big: {}", if constant || r.chance(50) { "-1" } else { "v_i64" }),
+                format!("pair: [{}, {}]", lit(r, "Packet", "m", &smembers, constant), lit(r, "Packet", "m", &smembers, constant)),
+            ];
+            let order = shuffled(r, fields.len());
+            let picked: Vec<String> = order.iter().map(|&k| std::mem::take(&mut fields[k])).collect();
+            format!("Outer {{\n\t\t{},\n\t}}", picked.join(",\n\t\t"))
+        };
+        let locals: String = prims.iter().map(|(t, c, v)| format!("\tvar {v}: {t} = {c};\n")).collect();
+        let mut lib = String::new();
+        lib.push_str(&decls);
+        lib.push_str(&format!("{}const DEFAULT_PACKET: Packet = {};\n", public(two_modules), lit(&mut r, "Packet", "m", &smembers, true)));
+        lib.push_str(&format!("{}const DEFAULT_WORD: Wd = {};\n\n", public(two_modules), lit(&mut r, "Wd", "w", wmembers, true)));
+        lib.push_str(&format!("{}fn first_of(p: Packet) -> {}\n{{\n\treturn: p.m0\n}}\n\n", public(two_modules), prims[smembers[0]].0));
+        lib.push_str(&format!("{}fn word_of(w: Wd) -> {}\n{{\n\treturn: w.w0\n}}\n\n", public(two_modules), prims[wmembers[0]].0));
+        lib.push_str(&format!(
+            "{}fn make_word() -> Wd\n{{\n{locals}\tvar w = {};\n\treturn: w\n}}\n\n",
+            public(two_modules),
+            lit(&mut r, "Wd", "w", wmembers, false)
+        ));
+        lib.push_str(&format!(
+            "{}fn tag_of(o: Outer) -> u8\n{{\n\treturn: o.tag\n}}\n\n",
+            public(two_modules)
+        ));
+        let mut user = String::new();
+        let entry = if r.chance(80) { "main" } else { "entry" };
+        user.push_str(&format!("{}fn {entry}() -> i32\n{{\n{locals}", if entry == "main" { "" } else { "pub " }));
+        user.push_str(&format!("\tvar p = {};\n", lit(&mut r, "Packet", "m", &smembers, false)));
+        user.push_str(&format!("\tvar q = {};\n", lit(&mut r, "Packet", "m", &smembers, true)));
+        let k1 = r.chance(50);
+        user.push_str(&format!("\tvar w = {};\n", lit(&mut r, "Wd", "w", wmembers, k1)));
+        user.push_str(&format!("\tvar o = {};\n", outer(&mut r, false)));
+        user.push_str(&format!("\tvar c = {};\n", outer(&mut r, true)));
+        let k2 = r.chance(50);
+        user.push_str(&format!("\tvar a = first_of({});\n", lit(&mut r, "Packet", "m", &smembers, k2)));
+        user.push_str("\tvar b = first_of(DEFAULT_PACKET);\n");
+        user.push_str("\tvar b2 = first_of(q);\n");
+        let k3 = r.chance(50);
+        user.push_str(&format!("\tvar d = word_of({});\n", lit(&mut r, "Wd", "w", wmembers, k3)));
+        user.push_str("\tvar e = word_of(DEFAULT_WORD);\n");
+        user.push_str("\tvar f = make_word();\n");
+        user.push_str(&format!(
+            "\tvar arr: [3]Packet = [{}, {}, {}];\n",
+            lit(&mut r, "Packet", "m", &smembers, true),
+            lit(&mut r, "Packet", "m", &smembers, false),
+            lit(&mut r, "Packet", "m", &smembers, false)
+        ));
+        user.push_str(&format!("\tp.m0 = arr[1].m0;\n\to.inner.m0 = p.m0;\n\to.pair[1].m0 = {};\n", prims[smembers[0]].1));
+        user.push_str(&format!("\to.word = {};\n", lit(&mut r, "Wd", "w", wmembers, false)));
+        user.push_str("\tw = f;\n\to.word = w;\n");
+        user.push_str("\tvar t = tag_of(o) as i32 + tag_of(c) as i32;\n");
+        user.push_str("\tw = DEFAULT_WORD;\n");
+        user.push_str("\treturn: t\n}\n");
+        let mods = if two_modules {
+            vec![
+                json!({"name": "user.pn", "src": format!("import \"lib.pn\";\n\n{user}")}),
+                json!({"name": "lib.pn", "src": lib}),
+            ]
+        } else {
+            vec![json!({"name": "structs.pn", "src": format!("{lib}{user}")})]
+        };
+        json!({"id": format!("struct{i}"), "kind": "struct", "wasm": wasm,
+               "origin": format!("{wkw}/{n_members} members/{}", if two_modules { "imported" } else { "single" }), "mods": mods})
+    }
+
     /// special inputs for locations: CRLF, multi-byte characters before the error, error at end of file
     pub fn location_specials(&self) -> Vec<Value> {
         let mut out = Vec::new();
@@ -575,7 +760,8 @@ impl<'a> Gen<'a> {
     }
 }
 
-pub fn generate(root: &Path, seed: u64, n_mut: usize, n_soup: usize, n_nest: usize, n_fault: usize, n_multi: usize) -> Vec<Value> {
+#[allow(clippy::too_many_arguments)]
+pub fn generate(root: &Path, seed: u64, n_mut: usize, n_soup: usize, n_nest: usize, n_fault: usize, n_multi: usize, n_line: usize, n_struct: usize) -> Vec<Value> {
     let corpus = Corpus::load(root);
     let g = Gen { corpus: &corpus, seed };
     let mut out = g.corpus_cases();
@@ -585,5 +771,7 @@ pub fn generate(root: &Path, seed: u64, n_mut: usize, n_soup: usize, n_nest: usi
     out.extend((0..n_nest).map(|i| g.nest(i)));
     out.extend((0..n_fault).map(|i| g.fault(i)));
     out.extend((0..n_multi).map(|i| g.multi(i)));
+    out.extend((0..n_line).map(|i| g.line_mutant(i)));
+    out.extend((0..n_struct).map(|i| g.structs(i)));
     out
 }
